@@ -28,7 +28,7 @@ type harnessSpec struct {
 	Thorough  tierSpec `json:"thorough"`
 	MapOrder  bool     `json:"map_order"`
 	Threads   int      `json:"threads"`
-	Switches  int      `json:"switches"`
+	Switches  *int     `json:"switches"` // pre-emption bound (nil = 6)
 	MaxSteps  int64    `json:"max_steps"`
 	About     string   `json:"about"`
 	OnlyTier  string   `json:"only_tier"` // run this entry only in the named tier
@@ -297,8 +297,8 @@ func check(args []string) int {
 			e.MaxThreads = h.Threads
 		}
 		e.MaxSwitches = 6
-		if h.Switches > 0 {
-			e.MaxSwitches = h.Switches
+		if h.Switches != nil {
+			e.MaxSwitches = *h.Switches
 		}
 		e.MaxPaths = 400000
 		if ts.MaxPaths > 0 {
@@ -465,6 +465,7 @@ func writeEvidence(id, tier string, seed int, spec checkSpec, runs []harnessRun,
 		Replays     []replayOutcome `json:"replays,omitempty"`
 		MapOrder    bool            `json:"map_iteration_orders_explored,omitempty"`
 		Threads     int             `json:"threads,omitempty"`
+		Switches    *int            `json:"preemption_bound,omitempty"`
 	}
 	cov := map[string]interface{}{}
 	var hevs []hEv
@@ -476,7 +477,7 @@ func writeEvidence(id, tier string, seed int, spec checkSpec, runs []harnessRun,
 			Pruned: res.Pruned, Obligations: res.Obligations, Discharged: res.Discharged,
 			Queries: map[string]int{"sat": res.Solver.Sat, "unsat": res.Solver.Unsat, "unknown": res.Solver.Unknown, "error": res.Solver.Errors},
 			SolverS: res.Solver.Time.Seconds(), WallS: res.WallSeconds, Steps: res.Steps, MaxDepth: res.MaxDepth, Exhausted: res.Exhausted,
-			Reached: res.Reached, Funcs: res.Funcs, Replays: r.Replays, MapOrder: r.Spec.MapOrder, Threads: r.Spec.Threads}
+			Reached: res.Reached, Funcs: res.Funcs, Replays: r.Replays, MapOrder: r.Spec.MapOrder, Threads: r.Spec.Threads, Switches: r.Spec.Switches}
 		if len(res.Unsupported) > 0 {
 			h.Inconcl = res.Unsupported
 		}
